@@ -633,6 +633,12 @@ impl PoolMap {
             return Err(Reject::ExceededMaximumAncestorsCount);
         }
 
+        // an evicted transaction takes its descendants with it; if one of them is another parent
+        // of this entry, the entry spends or references an output that is no longer in the pool
+        if parents.iter().any(|id| self.entries.get_by_id(id).is_none()) {
+            return Err(Reject::ExceededMaximumAncestorsCount);
+        }
+
         // some txs in `parents` are removed, now `ancestors` need to re-caculate,
         let ancestors = self
             .links
